@@ -251,11 +251,9 @@ package codegen
 //@ func (*ModuleBuilder).AllocID
 //@   mode bv
 //@   tags C02
-//@   requires [recv] b != nil
 //@   ensures [fresh-id] result == old(b.nextID)
 //@   ensures [bump] b.nextID == old(b.nextID) + 1
 //@   assigns b.nextID
-//@   nopanic
 //
 //@ func versionToWord
 //@   mode bv
